@@ -74,7 +74,9 @@ Configs ==
              g \in {0, 1}, i \in {<<>>, <<1, 2>>}, t \in TranspChoices(w)} : w \in {1, 2}}
 \* configurations whose every transition is printed and replayed into the real memories
 ConfigsEdge == {c \in Configs : c.transp[1] # <<2>>}
-DataDom(cfg) == {1, 2}
+\* whole-row writes include 0 so that the model graph stays strongly connected (few resets
+\* in the edge-cover replay); with granularity 1 the values 01 / 10 clear every granule anyway
+DataDom(cfg) == IF cfg.granularity = 0 THEN {0, 1, 2} ELSE {1, 2}
 RIn(cfg) == [en : {0, 1}, addr : 0..(cfg.depth - 1)]
 WIn(cfg) == [en : 0..(Pow2(NGran(cfg)) - 1), addr : 0..(cfg.depth - 1), data : DataDom(cfg)]
 Inputs(cfg) == [r : [1..cfg.read_ports -> RIn(cfg)], w : [1..cfg.write_ports -> WIn(cfg)]]
